@@ -5,11 +5,15 @@ Written from the *statement* of C02, not from streamflow/workflow/combinator.py:
 * dot product  -- exactly one combination for each tag present on every input, where a token
   with a shallower (proper-prefix) tag is broadcast to every deeper tag.  All members of a
   combination carry the deepest tag.
-* cartesian product of depth d -- the full cross product inside every group of tokens that share
-  the tag minus its last d components; each member keeps its own tag minus the last component
-  and is extended by the last components of all members, in item order.
+* cartesian product of depth d -- tokens are grouped by their tag minus its last d components;
+  inside a group the full cross product is emitted; each member keeps its own tag minus the last
+  component and is extended by the last components of all members, in item order.  When items
+  carry tags of different depths (parent/child mixes) the broadcast rule of the statement applies
+  to the groups: a token whose group is a proper prefix of another group takes part in that
+  deeper group too, so a combination exists for every choice of one token per item whose groups
+  lie on one prefix chain.
 * nested trees compose: the combinations of an inner combinator are the tokens of one item of the
-  outer combinator (the item's tag is the tag its members carry).
+  outer combinator; the tag of such a token is the tag its members share.
 
 Representation (all JSON-able):
   tree    : "port-name"  |  ["dot", item, ...]  |  ["cart", depth, item, ...]
@@ -17,9 +21,11 @@ Representation (all JSON-able):
   combo   : tuple(sorted((port, tag, value)))          -- one emitted combination
   result  : collections.Counter of combos               -- the multiset the step must emit
 
-`denote` raises OutOfDomain where the statement does not define the outcome (a port or an
-inner result that mixes tag depths or repeats a tag, a cartesian product over items of different
-depths, tags not rooted at "0").  Callers record such cases and do not judge them.
+`denote` raises OutOfDomain where the statement does not define the outcome: a port (or an inner
+result) that mixes tag depths or repeats a tag; tags not rooted at "0"; an inner cartesian result
+whose members carry different tags feeding an outer combinator (which tag is "the" tag of the
+combination is not defined); a mixed-depth cartesian product with a token too short to have a
+group.  Callers record such cases and do not judge them.
 """
 from __future__ import annotations
 
@@ -40,12 +46,15 @@ def is_prefix(p: str, t: str) -> bool:
     return parts(t)[: len(pp)] == pp
 
 
+def items_of(tree) -> list:
+    return list(tree[1:] if tree[0] == "dot" else tree[2:])
+
+
 def leaves(tree) -> list[str]:
     if isinstance(tree, str):
         return [tree]
-    items = tree[1:] if tree[0] == "dot" else tree[2:]
     out: list[str] = []
-    for it in items:
+    for it in items_of(tree):
         out.extend(leaves(it))
     return out
 
@@ -58,8 +67,19 @@ def tree_name(tree) -> str:
     return f"Cart{tree[1]}(" + ",".join(tree_name(i) for i in tree[2:]) + ")"
 
 
-def _uniform(vstream, what: str) -> int | None:
+def has_cart_over_combinator(tree) -> bool:
+    if isinstance(tree, str):
+        return False
+    its = items_of(tree)
+    if tree[0] == "cart" and any(not isinstance(i, str) for i in its):
+        return True
+    return any(has_cart_over_combinator(i) for i in its)
+
+
+def _uniform(vstream, what: str):
     """vstream: list of (tag, members).  Returns the common depth (None when empty)."""
+    if any(t is None for t, _ in vstream):
+        raise OutOfDomain(f"{what}: combination whose members carry different tags")
     depths = {len(parts(t)) for t, _ in vstream}
     if len(depths) > 1:
         raise OutOfDomain(f"{what}: mixed tag depths {sorted(depths)}")
@@ -72,8 +92,18 @@ def _uniform(vstream, what: str) -> int | None:
     return next(iter(depths)) if depths else None
 
 
+def group_of(tag: str, depth: int) -> tuple:
+    p = parts(tag)
+    return tuple(p[: len(p) - depth]) if depth < len(p) else ()
+
+
+def _chain(groups) -> bool:
+    gs = sorted(set(groups), key=len)
+    return all(b[: len(a)] == a for a, b in zip(gs, gs[1:]))
+
+
 def _eval(tree, streams):
-    """-> list of virtual tokens (tag, {port: (tag, value)})."""
+    """-> list of virtual tokens (tag | None, {port: (tag, value)})."""
     if isinstance(tree, str):
         vs = [(t, {tree: (t, v)}) for t, v in streams.get(tree, [])]
         _uniform(vs, f"port {tree}")
@@ -108,24 +138,22 @@ def _eval(tree, streams):
         children = [_eval(it, streams) for it in tree[2:]]
         depths = {_uniform(c, f"item {i} of {tree_name(tree)}") for i, c in enumerate(children)}
         depths.discard(None)
-        if len(depths) > 1:
-            raise OutOfDomain(f"{tree_name(tree)}: items of different depths {sorted(depths)}")
-        groups: dict = collections.defaultdict(lambda: collections.defaultdict(list))
-        for i, c in enumerate(children):
-            for tg, mem in c:
-                groups[".".join(parts(tg)[:-d])][i].append((tg, mem))
+        mixed = len(depths) > 1
+        if mixed and min(depths) <= d:
+            raise OutOfDomain(f"{tree_name(tree)}: mixed depths with a tag of depth <= {d} (no group)")
         out = []
-        for g, per in groups.items():
-            if len(per) != len(children):
+        if any(not c for c in children):
+            return out
+        for choice in itertools.product(*children):
+            if not _chain([group_of(tg, d) for tg, _ in choice]):
                 continue
-            for choice in itertools.product(*[per[i] for i in range(len(children))]):
-                flat = []  # leaf members in item order
-                for _, mem in choice:
-                    flat.extend(mem.items())
-                suffix = [parts(tg)[-1] for _, (tg, _) in flat]
-                members = {p: (".".join(parts(tg)[:-1] + suffix), v) for p, (tg, v) in flat}
-                tags = {tg for tg, _ in members.values()}
-                out.append((max(tags, key=lambda x: (len(parts(x)), x)), members))
+            flat = []  # leaf members in item order
+            for _, mem in choice:
+                flat.extend(mem.items())
+            suffix = [parts(tg)[-1] for _, (tg, _) in flat]
+            members = {p: (".".join(parts(tg)[:-1] + suffix), v) for p, (tg, v) in flat}
+            tags = {tg for tg, _ in members.values()}
+            out.append((next(iter(tags)) if len(tags) == 1 else None, members))
         return out
     raise ValueError(tree)
 
@@ -137,5 +165,26 @@ def denote(tree, streams) -> collections.Counter:
     return out
 
 
+def mixed_root_cart(tree, streams) -> bool:
+    """Root is a cartesian product over plain ports whose streams have different tag depths."""
+    if isinstance(tree, str) or tree[0] != "cart" or any(not isinstance(i, str) for i in tree[2:]):
+        return False
+    depths = {len(parts(t)) for p in tree[2:] for t, _ in streams.get(p, [])}
+    return len(depths) > 1
+
+
+def ancestors_first(tree, arrival) -> bool:
+    """arrival: [(port, tag), ...] as seen by a root cartesian combinator.  True iff no token
+    arrives after a token whose group is a proper descendant of its own group."""
+    d = int(tree[1])
+    seen: list[tuple] = []
+    for _, tg in arrival:
+        g = group_of(tg, d)
+        if any(len(s) > len(g) and s[: len(g)] == g for s in seen):
+            return False
+        seen.append(g)
+    return True
+
+
 def show(counter) -> list:
-    return sorted([list(map(list, k)), n] for k, n in counter.items())
+    return sorted([[list(m) for m in k], n] for k, n in counter.items())
